@@ -29,7 +29,7 @@ ASSUMPTIONS = [
     "a handle whose close() raised and stayed open at OS level is exempt from the exactly-one-release count",
     "when closing the stale handle fails, the exception may or may not propagate; what is demanded is that a fresh handle on the current inode was opened during that call and that no command was sent through the stale one",
 ]
-REQUIRED_PROBES = ["cmd_after_replug", "close_fails", "replug_and_close_fails", "unplug_detected", "with_exit_exception", "detect_off_kept_handle", "iscsi_disconnect_once"]
+REQUIRED_PROBES = ["raw_sense_execute", "cmd_after_replug", "close_fails", "replug_and_close_fails", "unplug_detected", "with_exit_exception", "detect_off_kept_handle", "iscsi_disconnect_once"]
 
 PATH = "/dev/sg3"
 
@@ -45,10 +45,10 @@ def gen_ops(rng, n):
     for _ in range(n):
         r = rng.random()
         if pending and r < 0.6:
-            op = {"op": "execute", "cc": rng.random() < 0.15}
+            op = {"op": "execute", "cc": rng.random() < 0.15, "raw": rng.random() < 0.25}
             pending = False
         elif r < 0.3:
-            op = {"op": "execute", "cc": rng.random() < 0.2}
+            op = {"op": "execute", "cc": rng.random() < 0.2, "raw": rng.random() < 0.2}
         elif r < 0.55:
             op = {"op": "replug"}
             if rng.random() < 0.3:
@@ -73,8 +73,9 @@ def gen_ops(rng, n):
 def generate(rng, idx, tier):
     cfg = {"transport": "sgio" if rng.random() < 0.85 else "iscsi",
            "detect": rng.random() < 0.7, "readwrite": rng.random() < 0.5,
-           "mode": rng.choice(["plain", "plain", "with_device", "with_facade"]),
+           "mode": rng.choice(["plain", "plain", "with_device", "with_facade", "nested_with"]),
            "exit": rng.choice(["normal", "normal", "exception"]),
+           "exit_exc": rng.choice(["custom", "custom", "OSError", "RuntimeError", "KeyError", "FileNotFoundError", "NotImplementedError", "KeyboardInterrupt"]),
            "close_at_end": rng.random() < 0.6}
     n = rng.choice([2, 3, 4, 5, 6, 8, 12, 25])
     return {"property": ID, "config": cfg, "ops": gen_ops(rng, n)}
@@ -82,6 +83,12 @@ def generate(rng, idx, tier):
 
 class _Leave(Exception):
     pass
+
+
+def leave_exception(cfg):
+    kind = cfg.get("exit_exc", "custom")
+    return {"custom": _Leave, "OSError": OSError, "RuntimeError": RuntimeError, "KeyError": KeyError, "FileNotFoundError": FileNotFoundError,
+            "NotImplementedError": NotImplementedError, "KeyboardInterrupt": KeyboardInterrupt}[kind]("leaving the with block (%s)" % kind)
 
 
 def execute(prog):
@@ -126,7 +133,11 @@ def execute(prog):
             kind, val = worlds.outcome_of(lambda: scsi.testunitready())
         else:
             cmd = TestUnitReady(dev.opcodes.TEST_UNIT_READY)
-            kind, val = worlds.outcome_of(lambda: dev.execute(cmd))
+            if op.get("raw"):
+                WORLD.probe("raw_sense_execute")
+                kind, val = worlds.outcome_of(lambda: dev.execute(cmd, en_raw_sense=True))
+            else:
+                kind, val = worlds.outcome_of(lambda: dev.execute(cmd))
         evs = WORLD.events[mark_ev:]
         if not sgio_mode:
             return kind, val
@@ -174,7 +185,7 @@ def execute(prog):
                 if cmds:
                     WORLD.probe("cmd_after_replug")
                 st["post_replug"] = False
-                if not closes_failed and not op.get("cc") and kind == "exc":
+                if not closes_failed and not op.get("cc") and kind == "exc" and not isinstance(val, KeyboardInterrupt):
                     V.append(dict(oracle="C15.replug-breaks-command", where=where, detail=type(val).__name__,
                                   expected="command executes through the fresh handle", actual=repr(val)[:100]))
             else:
@@ -255,7 +266,15 @@ def execute(prog):
                     run_ops(None)
                     if cfg["exit"] == "exception":
                         WORLD.probe("with_exit_exception")
-                        raise _Leave()
+                        raise leave_exception(cfg)
+            elif mode == "nested_with":
+                # `with device` around `with SCSI(device)`: both exits close; the OS handle must still be released exactly once
+                with dev:
+                    with SCSI(dev, blocksize=512) as s:
+                        run_ops(s)
+                        if cfg["exit"] == "exception":
+                            WORLD.probe("with_exit_exception")
+                            raise leave_exception(cfg)
             else:
                 if PATH not in WORLD.nodes and sgio_mode:
                     return
@@ -263,12 +282,15 @@ def execute(prog):
                     run_ops(s)
                     if cfg["exit"] == "exception":
                         WORLD.probe("with_exit_exception")
-                        raise _Leave()
-        kind, val = worlds.outcome_of(body)
+                        raise leave_exception(cfg)
+        try:
+            kind, val = worlds.outcome_of(body)
+        except KeyboardInterrupt as e:     # generated on purpose (exit_exc); outcome_of lets it through
+            kind, val = "exc", e
         left = "ok" if kind == "ok" else type(val).__name__
         st["closed"] = True
         st["explicit_close"] = True
-        if kind == "exc" and cfg["exit"] == "exception" and not isinstance(val, (_Leave, OSError)):
+        if kind == "exc" and cfg["exit"] == "exception" and not isinstance(val, (_Leave, OSError, type(leave_exception(cfg)))):
             V.append(dict(oracle="C15.with-exit", where=mode, detail=type(val).__name__,
                           expected="the with block re-raises the body's exception (or the close error)", actual=repr(val)[:100]))
     # release accounting
@@ -283,7 +305,7 @@ def execute(prog):
                                   actual="%d releases, %d close calls" % (h.os_releases, h.close_calls)))
         else:
             n = sum(c.disconnects for c in WORLD.iscsi_contexts)
-            closes = sum(1 for o in prog["ops"] if o["op"] == "close") + (1 if (mode != "plain" or cfg["close_at_end"]) else 0)
+            closes = sum(1 for o in prog["ops"] if o["op"] == "close") + (2 if mode == "nested_with" else 1 if (mode != "plain" or cfg["close_at_end"]) else 0)
             if n < 1 or (closes == 1 and n != 1):
                 V.append(dict(oracle="C15.iscsi-disconnect", where=mode, detail="n=%d" % n,
                               expected="disconnect exactly once for one close", actual="%d disconnect(s) for %d close call(s)" % (n, closes)))
